@@ -250,33 +250,47 @@ Theorem C13_bootstrap_needs_majority : forall v n maxinc h0 live ls,
 Proof. exact blocked. Qed.
 Print Assumptions C13_bootstrap_needs_majority.
 
-(** Liveness for the working tree, committee sizes 2..7 (the property's
-    range) and EVERY live set containing the leader: on the fair round-robin
-    schedule (every live member ticks, everything pooled is executed, a block
-    passes) the role is designated within 8 rounds IF AND ONLY IF a majority
-    M of the members is live — whatever order the scheduler proposes for the
-    map ([assemble_repaired_order]: the repaired code sorts). In particular
-    n = 2 completes and any majority that includes the leader suffices.
-    [_partial]: computed for n in 2..7; for symbolic n only the "only if"
-    direction is proved ([C13_bootstrap_needs_majority]); inevitability over
-    all infinite fair schedules is not stated (possibility on the canonical
-    fair schedule is). *)
-Theorem C13_bootstrap_any_majority_partial : forall n mask,
-  (2 <= n <= 7)%nat -> length mask = n -> live_of mask 0 = true ->
-  c_designated (p_chain (fst (prun as_repaired n 5760 (pinit 0) (fair_rounds 8 (members mask) 1 [])))) =
-  (maj_m n <=? live_count n (live_of mask))%nat.
+(** Liveness for the working tree, for EVERY committee size n >= 2, every
+    live set containing the leader, every starting height, every nonce and
+    every map order the scheduler proposes (the repaired code sorts): on the
+    fair round-robin schedule of the live members (each ticks, everything
+    pooled is executed, a block passes) the role is designated after five
+    rounds — and stays so — IF AND ONLY IF a majority M = n-(n-1)/2 of the
+    members is live. In particular n = 2 completes, and any majority that
+    includes the leader suffices, the last member included.
+    Proved by symbolic execution of the model round by round, the members'
+    ticks by induction over the member list (Proofs/DeployProto.v, last part); the "only
+    if" half is [C13_bootstrap_needs_majority] and holds for every schedule.
+    [4 <= maxinc]: the shared data must outlive the five rounds
+    (MaxValidUntilBlockIncrement is 5760 on a 15 s chain).
+    Not stated: inevitability over all infinite fair schedules (this is the
+    canonical fair schedule; [completes] below is the possibility form). *)
+Theorem C13_bootstrap_any_majority : forall n (live : nat -> bool) maxinc h0 nonce order r,
+  (2 <= n)%nat -> live 0%nat = true -> 4 <= maxinc -> (5 <= r)%nat ->
+  c_designated (p_chain (fst (prun as_repaired n maxinc (pinit h0)
+                                   (fair_rounds r (List.filter live (seq 0 n)) nonce order)))) =
+  (maj_m n <=? live_count n live)%nat.
+Proof. exact any_majority_fair. Qed.
+Print Assumptions C13_bootstrap_any_majority.
+
+(** The possibility form: with a live majority that includes the leader SOME
+    history of the live members gets the role designated. *)
+Definition majority_with_leader (n : nat) (live : nat -> bool) : Prop :=
+  live 0%nat = true /\ (maj_m n <= live_count n live)%nat.
+Definition completes (v : variant) (n : nat) (live : nat -> bool) : Prop :=
+  exists maxinc h0 ls, Forall (honest live) ls /\
+    c_designated (p_chain (fst (prun v n maxinc (pinit h0) ls))) = true.
+Definition any_majority_completes (v : variant) : Prop :=
+  forall n live, (2 <= n)%nat -> majority_with_leader n live -> completes v n live.
+
+Theorem C13_bootstrap_any_majority_completes : any_majority_completes as_repaired.
 Proof.
-  assert (Hall : forallb (fun n => forallb (fun mask => negb (live_of mask 0) || repaired_check n mask)
-                                           (all_masks n)) [2; 3; 4; 5; 6; 7]%nat = true)
-    by (vm_compute; reflexivity).
-  intros n mask Hn Hl H0.
-  rewrite forallb_forall in Hall.
-  assert (Hin : In n [2; 3; 4; 5; 6; 7]%nat) by (cbn; lia).
-  specialize (Hall n Hin). rewrite forallb_forall in Hall.
-  specialize (Hall mask (all_masks_complete n mask Hl)). rewrite H0 in Hall. cbn [negb orb] in Hall.
-  unfold repaired_check in Hall. apply Bool.eqb_prop in Hall. exact Hall.
+  intros n live Hn [H0 Hm].
+  exists 5760, 0, (fair_rounds 5 (List.filter live (seq 0 n)) 1 []). split.
+  - apply fair_rounds_honest. apply List.Forall_forall. intros k Hk. apply filter_In in Hk. tauto.
+  - rewrite (any_majority_fair n live 5760 0 1 [] 5 Hn H0 ltac:(lia) ltac:(lia)). apply Nat.leb_le. exact Hm.
 Qed.
-Print Assumptions C13_bootstrap_any_majority_partial.
+Print Assumptions C13_bootstrap_any_majority_completes.
 
 (** What [C13_bootstrap_safe] does not say, and the model refutes once a
     foreign account owns signature domains: that every signature of an
@@ -320,17 +334,8 @@ Proof. vm_compute. reflexivity. Qed.
     designated; n = 3 with members {0,2} never did; witnesses [0 2 1] and
     [0 3 1 2] refused with ErrInvalidSignature). *)
 
-Definition majority_with_leader (n : nat) (live : nat -> bool) : Prop :=
-  live 0%nat = true /\ (maj_m n <= live_count n live)%nat.
-Definition completes (v : variant) (n : nat) (live : nat -> bool) : Prop :=
-  exists maxinc h0 ls, Forall (honest live) ls /\
-    c_designated (p_chain (fst (prun v n maxinc (pinit h0) ls))) = true.
-(** "With a live majority that includes the leader SOME history of the live
-    members gets the role designated" — the weakest reading of liveness. *)
-Definition any_majority_completes (v : variant) : Prop :=
-  forall n live, (2 <= n)%nat -> majority_with_leader n live -> completes v n live.
-
-(** The old leader loop read domains 0..n-2 and checked domain i with
+(** [any_majority_completes] (above) fails for the old code even in this
+    weakest, "some schedule" reading. The old leader loop read domains 0..n-2 and checked domain i with
     committee[i] while member k writes domain k, so only live members
     1..n-2 could ever be counted ([C13_bootstrap_needs_majority] with
     [readable as_pinned]). Refutation, witness n = 2 with both members live:
